@@ -168,7 +168,7 @@ pub fn parse_result(input_len: usize, r: &ParseRes, with_rest: bool) -> J {
             o
         }
         Ok(Ok((rest, ParsedMessage::FilteredOut(n)))) => json!({"v": "filtered", "consumed": input_len - rest.len(), "n": n}),
-        Ok(Ok((_, ParsedMessage::Invalid))) => json!({"v": "invalid"}),
+        Ok(Ok((rest, ParsedMessage::Invalid))) => json!({"v": "invalid", "consumed": input_len - rest.len()}),
         Ok(Err(DltParseError::IncompleteParse { needed })) => json!({"v": "inc", "hint": match needed { Some(n) => json!([n.get()]), None => json!([]) }}),
         Ok(Err(_)) => json!({"v": "rej"}),
     }
